@@ -745,6 +745,23 @@ func oracleC18Root(p *Pair, env *Env, a [][]byte) *Failure {
 	defer os.RemoveAll(sb)
 	_ = t.write(sb)
 	_ = os.MkdirAll(filepath.Join(sb, start), 0o755)
+	if len(a) > 4 && string(a[4]) == "linked-markers" {
+		// every regex-assembly directory is a symbolic link to a directory kept elsewhere: it marks a root all the same
+		var markers []string
+		_ = filepath.Walk(sb, func(p string, info os.FileInfo, err error) error {
+			if err == nil && info.IsDir() && filepath.Base(p) == "regex-assembly" {
+				markers = append(markers, p)
+				return filepath.SkipDir
+			}
+			return nil
+		})
+		for i, m := range markers {
+			real := filepath.Join(sb, fmt.Sprintf(".real-assembly-%d", i))
+			if os.Rename(m, real) == nil {
+				_ = os.Symlink(real, m)
+			}
+		}
+	}
 	// absolute -d, relative -d from the sandbox, and no -d with that working directory
 	for _, mode := range []string{"abs", "rel", "cwd", "abs-slash", "abs-dotdot", "rel-slash", "dot-from-start", "abs-from-start", "sibling-name-from-start"} {
 		var c cliResult
@@ -908,6 +925,9 @@ func genC18(r *rand.Rand, tier string, env *Env) []Case {
 		cases = append(cases, Case{Kind: "root-search", Ops: []Op{{"root.find", args}}})
 	}
 	for _, rc := range rcs {
+		if !strings.HasPrefix(rc.start, "a/x/inner/regex-assembly") && !strings.HasPrefix(rc.start, "a/regex-assembly") {
+			cases = append(cases, Case{Kind: "root-resolution-linked-markers", Oracles: []Op{{"c18.root", [][]byte{encodeTree(layout), []byte(rc.start), []byte(rc.want), []byte(rc.cwdWant), []byte("linked-markers")}}}})
+		}
 		cases = append(cases, Case{Kind: "root-resolution", Oracles: []Op{{"c18.root", [][]byte{encodeTree(layout), []byte(rc.start), []byte(rc.want), []byte(rc.cwdWant)}}}})
 	}
 	return cases
